@@ -249,9 +249,9 @@ def allWritten (m : Mem) (h : HV) : Bool :=
 def runConv (m : Mem) (h : HV) : Conv → Option HV
   | .intoRaw =>
       if h.kind = .arc ∧ (h.ty = .sized ∨ h.ty = .sizedB ∨ h.ty = .slice ∨ h.ty = .dyn) then some (Arc.into_raw m h) else none
-  | .fromRaw => if h.kind = .raw then Arc.from_raw m h else none
+  | .fromRaw => if h.kind = .raw then some (Arc.from_raw m h) else none
   | .intoRawOffset => if h.kind = .arc ∧ h.ty = .sized then some (Arc.into_raw_offset m h) else none
-  | .fromRawOffset => if h.kind = .offset then Arc.from_raw_offset m h else none
+  | .fromRawOffset => if h.kind = .offset then some (Arc.from_raw_offset m h) else none
   | .fromThin => if h.kind = .thin then some (ThinArc.thick m h) else none
   | .thinIntoRaw => if h.kind = .thin then some (ThinArc.into_raw h) else none
   | .thinFromRaw => if h.kind = .rawThin then some (ThinArc.from_raw h) else none
@@ -271,7 +271,7 @@ def runConv (m : Mem) (h : HV) : Conv → Option HV
       else none
   | .toDyn =>
       -- `Arc::into_raw`, `as *const dyn Tr`, `Arc::from_raw`
-      if h.kind = .arc ∧ h.ty = .sized then Arc.from_raw m { Arc.into_raw m h with ty := .dyn } else none
+      if h.kind = .arc ∧ h.ty = .sized then some (Arc.from_raw m { Arc.into_raw m h with ty := .dyn }) else none
 
 /-! ## reading and writing the payload -/
 
@@ -325,10 +325,10 @@ deriving Repr, Inhabited
 def transientOf (m : Mem) (api : CbApi) (h : HV) : Option HV :=
   match api with
   | .rawOffset => if h.kind = .arc ∧ h.ty = .sized then some (Arc.into_raw_offset m h) else none
-  | .offsetWithArc => if h.kind = .offset then OffsetArc.transient m h else none
+  | .offsetWithArc => if h.kind = .offset then some (OffsetArc.transient m h) else none
   | .borrowWithArc =>
-      if h.kind = .arc ∧ (h.ty = .sized ∨ h.ty = .sizedB) then Arc.from_raw m (ArcBorrow.of_arc m h)
-      else if h.kind = .unionA ∨ h.kind = .unionB then Arc.from_raw m (ArcUnion.borrow h)
+      if h.kind = .arc ∧ (h.ty = .sized ∨ h.ty = .sizedB) then some (Arc.from_raw m (ArcBorrow.of_arc m h))
+      else if h.kind = .unionA ∨ h.kind = .unionB then some (Arc.from_raw m (ArcUnion.borrow h))
       else none
   | .thinWithArc | .thinWithArcMut => if h.kind = .thin then some (ThinArc.thick m h) else none
 
@@ -357,9 +357,8 @@ def runCb (api : CbApi) (src : Nat) : List CbAct → State → HV → String →
         | some _ => runCb api src rest s t (acc ++ "skip;")
         | none =>
           if api = .rawOffset then
-            match OffsetArc.clone_arc s.mem t with
-            | some (m, c) => runCb api src rest (s.put m k c) t (acc ++ "cloned;")
-            | none => runCb api src rest s t (acc ++ "skip;")
+            let (m, c) := OffsetArc.clone_arc s.mem t
+            runCb api src rest (s.put m k c) t (acc ++ "cloned;")
           else runCb api src rest s t (acc ++ "skip;")
     | .getMutWrite v =>
         if api = .thinWithArcMut then
@@ -426,19 +425,20 @@ def Arc.make_mut (m : Mem) (a : HV) (clonePanics : Bool) : Mem × Option HV :=
     let m := Arc.drop m a             -- the assignment drops the previous value of `*this`
     (m, some fresh)
 
-/-- drop every handle in the table; raw pointers are first taken back (`from_raw`) -/
-def insertSlot (e : Nat × HV) : List (Nat × HV) → List (Nat × HV)
-  | [] => [e]
-  | x :: r => if e.1 ≤ x.1 then e :: x :: r else x :: insertSlot e r
-/-- the slot table in slot-number order (the order in which `dropAll` releases) -/
-def sortedSlots (l : List (Nat × HV)) : List (Nat × HV) := l.foldr insertSlot []
+def insertKey (k : Nat) : List Nat → List Nat
+  | [] => [k]
+  | x :: r => if k ≤ x then k :: x :: r else x :: insertKey k r
+/-- the occupied slot numbers in increasing order (the order in which `dropAll` releases) -/
+def sortedKeys (l : List (Nat × HV)) : List Nat := (l.map (·.1)).foldr insertKey []
 
-def dropAllSlots : List (Nat × HV) → Mem → Mem
-  | [], m => m
-  | (_, h) :: r, m =>
-    match asArc m h with
-    | some a => dropAllSlots r (Arc.drop m a)
-    | none => dropAllSlots r m
+/-- release whatever is in slot `i`: raw pointers are first taken back (`from_raw`), then the
+handle is dropped -/
+def releaseSlot (s : State) (i : Nat) : State :=
+  match lookup s i with
+  | some h => s.del (Arc.drop s.mem (asArc s.mem h)) i
+  | none => s
+
+def dropAllFrom (keys : List Nat) (s : State) : State := keys.foldl releaseSlot s
 
 def step (s : State) : Op → State × Out
   | .create dst c =>
@@ -488,10 +488,10 @@ def step (s : State) : Op → State × Out
   | .cloneArc dst src =>
     match lookup s dst, lookup s src with
     | none, some h =>
-      let r :=
-        if h.kind = .arc ∧ (h.ty = .sized ∨ h.ty = .sizedB) then ArcBorrow.clone_arc s.mem (ArcBorrow.of_arc s.mem h)
-        else if h.kind = .offset then OffsetArc.clone_arc s.mem h
-        else if h.kind = .unionA ∨ h.kind = .unionB then ArcBorrow.clone_arc s.mem (ArcUnion.borrow h)
+      let r : Option (Mem × HV) :=
+        if h.kind = .arc ∧ (h.ty = .sized ∨ h.ty = .sizedB) then some (ArcBorrow.clone_arc s.mem (ArcBorrow.of_arc s.mem h))
+        else if h.kind = .offset then some (OffsetArc.clone_arc s.mem h)
+        else if h.kind = .unionA ∨ h.kind = .unionB then some (ArcBorrow.clone_arc s.mem (ArcUnion.borrow h))
         else none
       match r with
       | some (m, a) => (s.put m dst a, ok)
@@ -526,12 +526,9 @@ def step (s : State) : Op → State × Out
         | (_, none) => (s, panicked "scripted")
       else if h.kind = .offset then
         -- `OffsetArc::make_mut`: read self, `from_raw_offset`, ManuallyDrop, `Arc::make_mut`, write back
-        match Arc.from_raw_offset s.mem h with
-        | none => (s, badOp)
-        | some a =>
-          match Arc.make_mut s.mem a cp with
-          | (m, some a') => (⟨writeVal m a'.blk v, (s.set m src (Arc.into_raw_offset m a')).slots⟩, ok)
-          | (_, none) => (s, panicked "scripted")
+        match Arc.make_mut s.mem (Arc.from_raw_offset s.mem h) cp with
+        | (m, some a') => (⟨writeVal m a'.blk v, (s.set m src (Arc.into_raw_offset m a')).slots⟩, ok)
+        | (_, none) => (s, panicked "scripted")
       else (s, badOp)
     | none => (s, badOp)
   | .makeUnique src v cp =>
@@ -608,7 +605,7 @@ def step (s : State) : Op → State × Out
       | some t => runCb api src script s t ""
       | none => (s, badOp)
     | none => (s, badOp)
-  | .dropAll => (⟨dropAllSlots (sortedSlots s.slots) s.mem, []⟩, ok)
+  | .dropAll => (dropAllFrom (sortedKeys s.slots) s, ok)
 
 def run (ops : List Op) : State := ops.foldl (fun s o => (step s o).1) State.init
 
